@@ -199,8 +199,7 @@ def sign_lengths(tier):
                 v = base + 128 * k + dlt
                 if v >= 0:
                     edges.add(v)
-    if tier == "quick":
-        return sorted(set(range(0, 131)) | {x for x in edges if x <= 300} | {255, 256, 257, 299, 300})
+    # every length 0..=300 in both tiers (the property's quantifier), plus the block edges beyond 300
     return sorted(set(range(0, 301)) | edges)
 
 
@@ -228,7 +227,7 @@ def gen_C13(tier, rng):
             s = rng.rbytes(32)
             m = rng.rbytes(ln)
             yield (f"ed25519.sign {hx(s)} {hx(m)}", "sign.len")
-            if quick and ln % 4 != 0 and ln not in (79, 80, 47, 48, 95, 96, 63, 64):
+            if quick and (ln > 130 or ln % 4 != 0) and ln not in (79, 80, 47, 48, 95, 96, 63, 64, 175, 176, 207, 208, 256, 300):
                 continue
             yield (f"ed25519.sign_via_ext {hx(s)} {hx(m)}", "sign_via_ext")
             yield (f"ed25519.sign_ext {hx(expand(s))} {hx(m)}", "sign_ext")
@@ -388,6 +387,19 @@ def gen_C14(tier, rng):
         yield (f"ed25519.verify {hx(m)} {hx(enc)} {hx(sig)}", "A.noncanonical")
         # non-canonical R never matches a canonical re-encoding
         yield (f"ed25519.verify {hx(m)} {hx(ref_public(s))} {hx(enc + sig[32:])}", "R.noncanonical")
+    # R is not a point at all (no x for that y) while A, S and the message are those of an honest signature: verify never
+    # decodes R, it compares bytes, so the verdict must be `false` without a panic; both sign bits, y < p and y >= 2^255 - 19 + k
+    for i in range(12 if quick else 200):
+        s_ = rng.rbytes(32)
+        m = rng.rbytes(rng.randrange(0, 40))
+        sig = ref_sign(s_, m)
+        R_bad = bytearray(random_nonpoint(rng))
+        if i % 3 == 1:
+            R_bad[31] ^= 0x80                       # the other sign bit: still not a point (decoding ignores the sign for existence)
+        yield (f"ed25519.verify {hx(m)} {hx(ref_public(s_))} {hx(bytes(R_bad) + sig[32:])}", "R.nonpoint")
+        if i % 3 == 2:
+            # also with S = 0 and with a small-order A (where a lenient check could accept anything)
+            yield (f"ed25519.verify {hx(m)} {hx(rng.choice(SMALL)[0])} {hx(bytes(R_bad) + le32(0))}", "R.nonpoint")
     # non-canonical A that IS accepted: y in 0..18 on the curve, small order (y = 0: order 4; y = 1: identity):
     # A = (0,1) encoded as p+1: [k]A = identity, so R = [S]B with any S < L verifies under the lenient decoder
     for enc in (le32(P + 1), le32((P + 1) | (1 << 255)), le32(1 | (1 << 255)), le32(1)):
@@ -481,7 +493,8 @@ def gen_C15(tier, rng):
         yield (f"ge.prog {';'.join(toks)}", "prog.random")
     # double_mul
     pts = [e for e, _ in SMALL] + [pt_enc(BPT)] + [random_point(rng) for _ in range(6 if quick else 60)]
-    scal = [0, 1, 2, 15, 16, 17, 31, L - 1, L, 2**252, 2**253 - 1, 2**255 - 1, int("aa" * 31 + "2a", 16), int("ff" * 31 + "7f", 16)]
+    scal = [0, 1, 2, 15, 16, 17, 31, L - 1, L, 2**252, 2**253 - 1, 2**255 - 1, int.from_bytes(bytes.fromhex("aa" * 31 + "2a"), "little"), int.from_bytes(bytes.fromhex("ff" * 31 + "7f"), "little")]
+    assert all(v < 2**255 for v in scal)
     for A in pts[: (11 if quick else len(pts))]:
         for _ in range(3 if quick else 8):
             a = rng.choice(scal + [rng.getrandbits(255)] * 4)
